@@ -5,7 +5,7 @@ import ast
 import copy
 import typing as T
 
-from ..core import Undecided, norm, short, attr_chain, call_name, call_method, calls_in, walk_no_nested, kwarg, Module
+from ..core import Undecided, norm, short, attr_chain, call_name, call_method, calls_in, walk_no_nested, kwarg, decorator_names, Module
 from ..report import Rule, RuleCtx
 from ..cfg import CFG, Node
 from ..flow import Flow
@@ -1172,19 +1172,81 @@ def r2c(ctx: RuleCtx) -> None:
     ctx.floor('returns of get_data', n_ret, 1)
 
 
+_R2D_NEUTRAL = {'call:str', 'call:os.fspath', 'call:os.path.abspath', 'call:os.path.normpath'}
+
+
+def _archive_origins(mod: Module, q: str, e: ast.AST, flows: T.Dict[str, Flow], depth: int = 0) -> T.Set[str]:
+    """origins of expression `e` of function `q`; a parameter of a function of the closed module is replaced by the origins of what
+    every call site binds to it (who-may-call over the module: `self.f(..)` / `f(..)`); a function that is also referenced outside
+    call position, is never called, or is called with */** arguments is not read (Undecided)"""
+    funcs = mod.funcs()
+    fn = funcs[q]
+    if q not in flows:
+        flows[q] = Flow(fn, cut={'_get_file_internal'})
+    out: T.Set[str] = set()
+    for o in flows[q].origins(e) - _R2D_NEUTRAL:
+        if not o.startswith('param:'):
+            out.add(o)
+            continue
+        pname = o[len('param:'):]
+        if depth >= 3:
+            raise Undecided(f'{q}: archive path parameter {pname!r} is handed down through more than three calls')
+        a = fn.args
+        pos = [x.arg for x in a.posonlyargs + a.args]
+        is_method = '.' in q and q.count('.') == 1 and 'staticmethod' not in decorator_names(fn)
+        if a.vararg and a.vararg.arg == pname or a.kwarg and a.kwarg.arg == pname or pname not in pos + [x.arg for x in a.kwonlyargs]:
+            raise Undecided(f'{q}: archive path comes from the variadic/nested parameter {pname!r}')
+        if q.count('.') > 1 or (is_method and pos and pname == pos[0]):
+            raise Undecided(f'{q}: archive path comes from {pname!r} (receiver or parameter of a nested function)')
+        short_name = q.split('.')[-1]
+        sites: T.List[T.Tuple[str, ast.Call]] = []
+        called: T.Set[int] = set()
+        for cq, cfn in funcs.items():
+            if any(cq.startswith(o2 + '.') for o2 in funcs if o2 != cq):
+                continue
+            for c in calls_in(cfn, nested=True):
+                f = c.func
+                hit = (isinstance(f, ast.Attribute) and f.attr == short_name and is_method and attr_chain(f.value) in ('self', 'cls', q.split('.')[0])) \
+                    or (isinstance(f, ast.Name) and f.id == short_name and '.' not in q)
+                if hit:
+                    sites.append((cq, c))
+                    called.add(id(f))
+        for n_ in ast.walk(mod.tree):
+            if id(n_) in called:
+                continue
+            if (isinstance(n_, ast.Attribute) and n_.attr == short_name and isinstance(n_.ctx, ast.Load)) or \
+                    (isinstance(n_, ast.Name) and n_.id == short_name and isinstance(n_.ctx, ast.Load) and '.' not in q):
+                raise Undecided(f'{q} is used as a value (`{short(n_)}`): the archive paths it is called with are not all seen')
+        if not sites:
+            raise Undecided(f'{q}: no call site binds the archive path parameter {pname!r}')
+        for cq, c in sites:
+            if any(isinstance(x, ast.Starred) for x in c.args) or any(k.arg is None for k in c.keywords):
+                raise Undecided(f'{cq}: `{short(c)}` passes */** arguments to {q}')
+            plist = pos[1:] if is_method and isinstance(c.func, ast.Attribute) and attr_chain(c.func.value) in ('self', 'cls') else pos
+            arg: T.Optional[ast.AST] = None
+            if pname in plist and plist.index(pname) < len(c.args):
+                arg = c.args[plist.index(pname)]
+            else:
+                arg = next((k.value for k in c.keywords if k.arg == pname), None)
+            if arg is None:
+                out.add('default')
+                continue
+            out |= _archive_origins(mod, cq, arg, flows, depth + 1)
+    return out
+
+
 def r2d(ctx: RuleCtx) -> None:
     mod = ctx.repo.module(WRAP)
     n = 0
+    flows: T.Dict[str, Flow] = {}
     for q, fn in mod.funcs().items():
         if any(q.startswith(o + '.') for o in mod.funcs() if o != q):
             continue   # nested functions are visited with their owner
-        fl = None
         for c in calls_in(fn, nested=True):
             if call_name(c) in ('shutil.unpack_archive', 'unpack_archive'):
                 n += 1
-                fl = fl or Flow(fn, cut={'_get_file_internal'})
-                o = fl.origins(c.args[0]) if c.args else set()
-                o = o - {'call:str', 'call:os.fspath', 'call:os.path.abspath', 'call:os.path.normpath'}
+                arch = c.args[0] if c.args else kwarg(c, 'filename')
+                o = _archive_origins(mod, q, arch, flows) if arch is not None else set()
                 ctx.require(o == {'san:_get_file_internal'}, f'{q}: {short(c)} unpacks a path from _get_file_internal', mod, q, c,
                             f'{short(c)} unpacks an archive whose path comes from {sorted(o)}, not (only) from the verifying _get_file_internal')
     ctx.floor('unpack_archive call sites in wrap.py', n, 1)
